@@ -61,6 +61,7 @@ func runC15(c *Ctx) {
 		p386 = c.Prog(core.Cfg386)
 	}
 
+	ruleEnsureExact(c, pd, "C15.ensure")
 	// ---- C15.pairs
 	rule := "C15.pairs"
 	c.R.Rule(rule, "the codec methods (EncodeColumn / WriteColumn / DecodeColumn) that are declared in different files in the default and in the purego configuration are paired by (type, method): every variant method has its sibling (ColRawOf exists only in the default build and is exempt), and both configurations type-check")
@@ -585,6 +586,89 @@ func uniqBlocks(bs []*ssa.BasicBlock) []*ssa.BasicBlock {
 		if !seen[b] {
 			seen[b] = true
 			out = append(out, b)
+		}
+	}
+	return out
+}
+
+// ---- ensure (C15 / C07): Buffer.Ensure(n) leaves exactly n bytes
+func ruleEnsureExact(c *Ctx, p *core.Program, rule string) {
+	c.R.Rule(rule, "Buffer.Ensure(n) leaves a buffer of exactly n bytes: every value it stores to Buf has a length that is the parameter n itself - Buf[:n], make([]byte, n[, cap]) or append(Buf[:0], make([]byte, n)...) - never a rounded-up or otherwise derived amount (only the capacity may be larger): Reader.ReadRaw and StrRaw read len(Buf) bytes from the stream, so a longer scratch buffer swallows the beginning of the next value (the pure-Go column decoders read whole columns through it)")
+	cfg := p.Cfg.Name
+	en := p.Method(core.PkgProto, "Buffer", "Ensure")
+	if !c.must(p, "(*proto.Buffer).Ensure", en != nil && len(en.Params) == 2) {
+		return
+	}
+	n := en.Params[1]
+	isN := func(v ssa.Value) bool { return v != nil && stripConv(v) == ssa.Value(n) }
+	var lenOf func(v ssa.Value, d int) (exact bool, known bool)
+	lenOf = func(v ssa.Value, d int) (bool, bool) {
+		if d > 4 {
+			return false, false
+		}
+		switch x := v.(type) {
+		case *ssa.Slice:
+			if x.High != nil {
+				return isN(x.High), true
+			}
+			if x.Low == nil {
+				return lenOf(x.X, d+1)
+			}
+		case *ssa.MakeSlice:
+			return isN(x.Len), true
+		case *ssa.Call:
+			if bi, ok := x.Call.Value.(*ssa.Builtin); ok && bi.Name() == "append" && len(x.Call.Args) == 2 {
+				// append(base[:0], tail...)
+				if sl, ok := x.Call.Args[0].(*ssa.Slice); ok && sl.High != nil {
+					if k, okc := core.ConstInt(sl.High); okc && k == 0 {
+						return lenOf(x.Call.Args[1], d+1)
+					}
+				}
+			}
+		case *ssa.Phi:
+			all := true
+			for _, e := range x.Edges {
+				ex, kn := lenOf(e, d+1)
+				if !kn {
+					return false, false
+				}
+				all = all && ex
+			}
+			return all, true
+		}
+		return false, false
+	}
+	stores := storesToBuf(en)
+	if len(stores) == 0 {
+		// delegated: Ensure calls a helper with n
+		c.R.Unk(rule, core.FuncName(en), cfg, p.Pos(en.Pos()), "no store to Buf in Ensure")
+		return
+	}
+	for i, s := range stores {
+		key := sprintf("%s/store#%d", core.FuncName(en), i+1)
+		exact, known := lenOf(s.Val, 0)
+		switch {
+		case !known:
+			c.R.Unk(rule, key, cfg, p.Pos(s.Pos()), "the length of the stored slice is not one of the recognised forms")
+		case !exact:
+			c.R.Bad(rule, key, cfg, p.Pos(s.Pos()), "Ensure leaves a buffer whose length is not the requested n: ReadRaw/StrRaw then read more bytes than the value has and return them to the decoder")
+		default:
+			c.R.Ok(rule, key, cfg, p.Pos(s.Pos()), "len(Buf) = n")
+		}
+	}
+}
+
+func storesToBuf(fn *ssa.Function) []*ssa.Store {
+	var out []*ssa.Store
+	for _, b := range fn.Blocks {
+		for _, in := range b.Instrs {
+			s, ok := in.(*ssa.Store)
+			if !ok {
+				continue
+			}
+			if fa, ok := s.Addr.(*ssa.FieldAddr); ok && core.IsNamed(fa.X.Type(), core.PkgProto, "Buffer") && fieldNameOnly(fa.X.Type(), fa.Field) == "Buf" {
+				out = append(out, s)
+			}
 		}
 	}
 	return out
